@@ -491,6 +491,11 @@ def reciprocal(x):
     return 1. / x
 
 @scbuiltin.unop
+def not_(x):
+    # operator.not_ can't be overloaded, lists need the lifted form.
+    return not x
+
+@scbuiltin.unop
 def bitnot(x):
     #return (float32) ~ (int)x;
     return float(~int(x))
